@@ -56,16 +56,23 @@ Definition average_default (a : arr3 sample) (T F B : nat) : option (arr3 sample
   average_api a T F B averager_default_timeav averager_default_chanav averager_default_flagav.
 
 (* ------------------------------------------------------------------ wire *)
-(* (T F B (timeav chanav flagav)|() samples) -> (1 model) | (0);  () = the defaults *)
+(* (T F B (timeav chanav flagav)|() samples) -> (1 (n_time n_chans n_bl of the result) model) | (0);  () = the defaults *)
 Definition wire_1510 (x : sx) : sx :=
   match x with
   | L [T; F; B; opts; a] =>
       let T := to_nat T in let F := to_nat F in let B := to_nat B in
       let a := to_arr3 to_sample a in
+      let '(timeav, chanav, flagav) :=
+          match opts with
+          | L [timeav; chanav; flagav] => (to_nat timeav, to_nat chanav, to_bool flagav)
+          | _ => (averager_default_timeav, averager_default_chanav, averager_default_flagav)
+          end in
       let r := match opts with
-               | L [timeav; chanav; flagav] => average_api a T F B (to_nat timeav) (to_nat chanav) (to_bool flagav)
+               | L [_; _; _] => average_api a T F B timeav chanav flagav
                | _ => average_default a T F B
                end in
-      match r with None => L [I 0] | Some r => L [I 1; of_arr3 of_sample r] end
+      let ta := if averager_clamp_timeav then Nat.min timeav T else timeav in
+      let ca := if averager_clamp_chanav then Nat.min chanav F else chanav in
+      match r with None => L [I 0] | Some r => L [I 1; of_nats [T / ta; F / ca; B]; of_arr3 of_sample r] end
   | _ => sx_err
   end.
